@@ -34,6 +34,7 @@ def expect_assertions(eng, ctx, cfg, stream, must, clean, cutsets, label):
     for cuts in cutsets:
         chunks = HC.split(stream, cuts)
         w = {"kind": "hdlc", "cfg": list(cfg), "chunks": chunks, "expect": [SBytes(f) for f in must], "exact": False}
+        ctx.intend(w)
         _, got = HC.read_chunks(cfg, chunks)
         if first:
             ctx.witness, ctx.obs, first = w, HC.sig(got), False
